@@ -2122,35 +2122,50 @@ class Engine:
     return out
 
   def for_dict_items(self, s, st, idx, spec, over_set=None):
-    """for k, v in d.items() / for x in <set>: the visiting order and number of iterations are abstracted:
-    the body is executed for an arbitrary entry of d (member of the set) from an arbitrary state satisfying
-    the invariant; after the loop only the invariant is known."""
+    """for k, v in d.items() / for x in <set>: the visiting order is abstracted.  Ghost `_visited<i>` (a set of keys /
+    members) is empty at entry, grows by the element just processed, and equals the whole domain at the normal exit
+    (Python visits every element exactly once; the loop body must not write the container -- checked).  The body is
+    executed for an arbitrary element not yet visited, from an arbitrary state satisfying the invariant, which may
+    mention the ghost set."""
     tag = '[loop%d' % idx
     invs = spec.get('inv', [])
     d = over_set if over_set is not None else self.ev(s.iter.func.value, st)
     if over_set is None and (not isinstance(d, V) or d.t.kind != 'dict'):
       raise Unsupported('items() of %r' % (getattr(d, 't', d),))
+    dom = d.z if over_set is not None else sv.d_keys(d)
+    kt = d.t.args[0]
+    vname = '_visited%d' % idx
+    vt = Ty('set', [kt])
+    written = self.written_names(s.body) | {x.id for x in ast.walk(s.target) if isinstance(x, ast.Name)}
+    cont = s.iter if over_set is not None else s.iter.func.value
+    if root_name(cont) in written:
+      raise Unsupported('the loop body writes the container it iterates over (line %d)' % s.lineno)
+    st.env[vname] = V(vt, sv.empty_set_z(vt))
     entry_env = self.loop_old_env(st)
     self.__dict__.setdefault('loop_entry_envs', []).append(dict(st.env))
     for k, inv in enumerate(invs):
       self.emit(st, 'loop-init', self.spec_formula(inv, st, old_env=entry_env), s, inv, tag='%s.inv%d]' % (tag, k))
-    written = self.written_names(s.body) | {x.id for x in ast.walk(s.target) if isinstance(x, ast.Name)}
     h = st.copy()
     self.havoc(written, h)
+    vis = sv.fresh(vt, vname)
+    h.env[vname] = vis
+    xq = z3.Const(sv.fresh_name('vq'), sv.zsort(kt))
+    h.pc.append(z3.ForAll([xq], z3.Implies(z3.Select(vis.z, xq), z3.Select(dom, xq)), patterns=[z3.Select(vis.z, xq)]))
     for k_, inv in enumerate(invs):
       h.pc.append(self.tagged(self.spec_formula(inv, h, old_env=entry_env), ('inv', idx, k_)))
     out = []
     itst = h.copy()
-    key = sv.fresh(d.t.args[0], 'key')
+    key = sv.fresh(kt, 'key')
+    itst.pc.append(z3.Select(dom, key.z))
+    itst.pc.append(z3.Not(z3.Select(vis.z, key.z)))
     if over_set is not None:
-      itst.pc.append(z3.Select(d.z, key.z))
       self.assign(s.target, key, itst)
     else:
-      itst.pc.append(z3.Select(sv.d_keys(d), key.z))
       val = V(d.t.args[1], z3.Select(sv.d_vals(d), key.z))
       self.assign(s.target, sv.mk_tuple([key, val]), itst)
     for s2, oc, v_ in self.block(s.body, itst):
       if oc in (NORMAL, CONTINUE):
+        s2.env[vname] = V(vt, z3.Store(vis.z, key.z, True))
         for k, inv in enumerate(invs):
           self.emit(s2, 'loop-preserved', self.spec_formula(inv, s2, old_env=entry_env), s, inv,
                     tag='%s.inv%d]' % (tag, k), focus=(idx, k))
@@ -2158,7 +2173,11 @@ class Engine:
         out.append((s2, NORMAL, None))
       else:
         out.append((s2, oc, v_))
-    out.append((h.copy(), NORMAL, None))
+    ex = h.copy()
+    ex.pc.append(z3.ForAll([xq], z3.Select(vis.z, xq) == z3.Select(dom, xq)))
+    ex.ghost = dict(ex.ghost)
+    ex.ghost['loop_exhausted'] = True
+    out.append((ex, NORMAL, None))
     self.loop_entry_envs.pop()
     return out
 
